@@ -176,6 +176,23 @@ def run(ctx):
         for o in ([rng.choice(good)] if quick else [rng.choice(good), rng.choice(good)]):
             add('format', t, o['opt'])
         ctx.nontrivial(t)
+    # wide inputs: one list replicated beyond 10000 tokens (select list, VALUES rows), many statements, many distinct words
+    from .. import widen
+    wide = []
+    for p in progs:
+        if len(wide) >= (2 if quick else 5):
+            break
+        w = widen.widen(p, 10500 if len(wide) % 2 == 0 else 16000)
+        if w is not None:
+            wide.append(sqlprog.spell(w, rng, gaps='blank').text)
+    wide.append('insert into t (a, b) values ' + ', '.join("(%d, 'x%d')" % (i, i) for i in range(1300 if quick else 2600)) + ';')
+    wide.append(' '.join('select c%d from t%d;' % (i, i) for i in range(3000)))
+    for t in wide:
+        add('parse', t, None, sweep=False)
+        add('split', t, None, sweep=False)
+        add('format', t, rng.choice(good)['opt'])
+        ctx.nontrivial(('wide', len(t)))
+    ctx.cov['wide_inputs'] = len(wide)
     for m in meta[-3:]:
         ctx.sample(m)
     rej = tracecheck.validate(ctx, 'TracePipeline', traces, label='TracePipeline_C07', min_chunk=100)
